@@ -20,7 +20,35 @@ func genValidStream(r *Rng, tier string) (stream, out []byte, how string) {
 		if genNoFastgo && pick >= 7 {
 			pick = 4 + r.Intn(3)
 		}
+		if r.Intn(12) == 0 {
+			pick = 10 + r.Intn(3)
+			if genNoFastgo && pick == 11 {
+				pick = 12
+			}
+		}
 		switch pick {
+		case 10: // only fixed-Huffman blocks, with back-references (the fixed tables are shared state of the Reader)
+			s, o2, d := Synthesize(r, SynthOpts{MaxBlocks: r.Pick([]int{1, 2, 3}), MaxTokens: r.Pick([]int{20, 60, 600}), StdCompat: true, ForceKind: 1})
+			chk, err := stdDecodeRaw(s, nil)
+			if err != io.EOF || !bytes.Equal(chk, o2) {
+				continue
+			}
+			return s, o2, "synth:fixedonly:" + d
+		case 11: // a data-carrying FINAL block whose output ends within a few bytes of the 64 KiB window
+			fam := payloadFamilies[r.Intn(len(payloadFamilies))]
+			data := Payload(r, fam, 65536+r.Intn(6)-1)
+			if len(data) < 65535 || len(data) > 65541 {
+				continue
+			}
+			cfg := WCfg{Pkg: "flate", Level: accelLevels[r.Intn(4)], Win4K: r.Intn(4) == 0}
+			tr := runOps(cfg, []Op{{K: "W", D: data}, {K: "C"}}, 0, false)
+			chk, err := stdDecodeRaw(tr.Out, nil)
+			if err != io.EOF || !bytes.Equal(chk, data) {
+				continue
+			}
+			return tr.Out, data, "fastgo:edge64k:" + cfg.String()
+		case 12:
+			return genEdgeStored(r)
 		case 0:
 			if r.Intn(2) == 0 {
 				s, o2, d := SynthBoundary(r)
@@ -70,6 +98,25 @@ func genValidStream(r *Rng, tier string) (stream, out []byte, how string) {
 	return []byte{1, 0, 0, 0xff, 0xff}, []byte{}, "fallback"
 }
 
+// genEdgeStored: a block ending exactly at (or next to) output offset 65536 followed, in the same stream, by a
+// stored block (what compress/flate emits for incompressible data after a Flush).
+func genEdgeStored(r *Rng) (stream, out []byte, how string) {
+	n1 := 65536 + r.Pick([]int{0, 0, 0, -1, 1, 2})
+	d1 := Payload(r, r.Pick2("text", "alpha", "periodic"), n1)
+	for len(d1) < n1 {
+		d1 = append(d1, d1...)
+	}
+	d1 = d1[:n1]
+	d2 := Payload(r, "random", r.Pick([]int{1, 2, 300, 3000, 40000}))
+	var b bytes.Buffer
+	w, _ := sflate.NewWriter(&b, r.Pick([]int{6, 1, 9}))
+	w.Write(d1)
+	w.Flush()
+	w.Write(d2)
+	w.Close()
+	return b.Bytes(), append(append([]byte{}, d1...), d2...), fmt.Sprintf("stdlib:edge64k%+d-stored", n1-65536)
+}
+
 // genNoFastgo makes generated streams independent of the acceleration level (needed when the same
 // case list must be produced in different processes).
 var genNoFastgo bool
@@ -103,9 +150,12 @@ func init() {
 					s, _, how = SynthBoundary(r)
 					how = "synth:" + how
 				}
+				if i%25 == 7 {
+					s, _, how = genEdgeStored(r)
+				}
 				c := Case{Prop: "C02", Stream: s, Reads: readPattern(r), Note: how, Chunks: chunkPattern(r), EOFWith: r.Bool()}
 				c.Src = r.Pick2("bytes.Reader", "plain", "bufio:4096", "bufio:65536", "bufio:64")
-				c.Ctor = r.Pick2("new", "new", "reset")
+				c.Ctor = r.Pick2("new", "new", "reset", "reset4")
 				cs = append(cs, c)
 			}
 			return cs
@@ -118,7 +168,12 @@ func init() {
 				return nil
 			}
 			src, _ := makeSource(c.Src, c.Stream, c)
-			rd, _ := newFastReader("flate", c.Ctor, src, nil)
+			var rd io.Reader
+			if c.Ctor == "reset4" {
+				rd = reusedReader(c.Ctor, src)
+			} else {
+				rd, _ = newFastReader("flate", c.Ctor, src, nil)
+			}
 			run := runReader(rd, c.Reads, len(want)+4096)
 			if v := basicReaderViolations(c, run); v != nil {
 				return v
@@ -141,7 +196,7 @@ func init() {
 				f := faultNames[i%len(faultNames)]
 				o := SynthOpts{MaxBlocks: r.Pick([]int{1, 2, 4}), MaxTokens: r.Pick([]int{5, 60, 600, 5000}), Fault: f, FarDist: r.Intn(4) == 0, LongCodes: r.Intn(3) == 0}
 				s, _, d := Synthesize(r, o)
-				cs = append(cs, Case{Prop: "C03", Kind: "fault", Stream: s, Note: f + ":" + d, Ctor: r.Pick2("new", "reset", "reset2", "reset3"), Reads: readPattern(r), Chunks: chunkPattern(r), Src: r.Pick2("bytes.Reader", "plain", "bufio:4096")})
+				cs = append(cs, Case{Prop: "C03", Kind: "fault", Stream: s, Note: f + ":" + d, Ctor: r.Pick2("new", "reset", "reset2", "reset3", "reset4"), Reads: readPattern(r), Chunks: chunkPattern(r), Src: r.Pick2("bytes.Reader", "plain", "bufio:4096")})
 			}
 			for i := 0; i < tierN(tier, 20, 200); i++ {
 				s, _, how := genValidStream(r, "quick")
@@ -171,7 +226,7 @@ func init() {
 					}
 					m[p] ^= 1 << uint(r.Intn(8))
 				}
-				cs = append(cs, Case{Prop: "C03", Kind: "bitflip", Stream: m, Note: how, Ctor: r.Pick2("new", "reset", "reset3"), Reads: readPattern(r), Src: r.Pick2("bytes.Reader", "plain"), Chunks: chunkPattern(r)})
+				cs = append(cs, Case{Prop: "C03", Kind: "bitflip", Stream: m, Note: how, Ctor: r.Pick2("new", "reset", "reset3", "reset4"), Reads: readPattern(r), Src: r.Pick2("bytes.Reader", "plain"), Chunks: chunkPattern(r)})
 			}
 			for i := 0; i < tierN(tier, 300, 5000); i++ {
 				m := r.Bytes(1 + r.Intn(300))
@@ -192,6 +247,9 @@ func init() {
 				if i%3 == 2 {
 					s, _, how = SynthBoundary(r)
 					how = "synth:" + how
+				}
+				if i%12 == 6 {
+					s, _, how = genEdgeStored(r)
 				}
 				if i%3 == 1 {
 					// small alphabet, output a little beyond the 64 KiB window: packed [literal.., length] table
@@ -273,9 +331,35 @@ func reusedReader(ctor string, src io.Reader) io.Reader {
 	case "reset3": // earlier stream cut inside its (dynamic) block header: staged header bytes pending
 		rd, _ = newFastReader("flate", "new", bytes.NewReader(warmupFlate[:3+len(warmupFlate)%17]), nil)
 		io.ReadAll(rd)
+	case "reset4": // a fixed-Huffman stream, then a dynamic header rejected AFTER its distance table was built
+		rd, _ = newFastReader("flate", "new", bytes.NewReader(histFixed), nil)
+		io.ReadAll(rd)
+		rd.(resetter).Reset(bytes.NewReader(histBadDyn), nil)
+		io.ReadAll(rd)
 	}
 	rd.(resetter).Reset(src, nil)
 	return rd
+}
+
+// histories for the "reset4" reuse: streams built once from a fixed seed
+var histFixed, histBadDyn []byte
+
+func init() {
+	r0 := NewRng(20260929)
+	for {
+		s, o, _ := Synthesize(r0, SynthOpts{MaxBlocks: 1, MaxTokens: 40, StdCompat: true, ForceKind: 1})
+		if chk, err := stdDecodeRaw(s, nil); err == io.EOF && bytes.Equal(chk, o) && len(o) > 10 {
+			histFixed = s
+			break
+		}
+	}
+	for {
+		s, _, _ := Synthesize(r0, SynthOpts{MaxBlocks: 1, MaxTokens: 200, Fault: "oversubscribed", ForceKind: 2, ManyDist: true})
+		if _, err := stdDecodeRaw(s, nil); err != io.EOF {
+			histBadDyn = s
+			break
+		}
+	}
 }
 
 func checkC03(c *Case, st *Stats) *Violation {
